@@ -28,21 +28,21 @@ MAP = {
     "tensor/optimizers/max_optimizer.py": ["C02", "C03"],
     "tensor/optimizers/affine_optimizer.py": ["C03", "C14"],
     "tensor/qbits/packed.py": ["C04", "C05"],
-    "tensor/qbits/group.py": ["C02", "C03"],
+    "tensor/qbits/group.py": ["C02", "C03", "C14"],
     "tensor/qbits/qbits.py": ["C02", "C06", "C10"],
     "tensor/qbits/qbits_ops.py": ["C05", "C09"],
     "tensor/qbytes.py": ["C06", "C10", "C01"],
-    "tensor/qbytes_ops.py": ["C05"],
-    "tensor/qtensor.py": ["C06", "C10"],
+    "tensor/qbytes_ops.py": ["C05", "C06", "C07"],
+    "tensor/qtensor.py": ["C06", "C10", "C05"],
     "tensor/qtensor_func.py": ["C07", "C11"],
     "tensor/qweight.py": ["C14", "C03"],
     "tensor/qactivation.py": ["C14", "C12"],
     "tensor/core.py": ["C03", "C12"],
-    "tensor/qtype.py": ["C01", "C14"],
+    "tensor/qtype.py": ["C01", "C14", "C03", "C08"],
     "library/qbytes_mm.py": ["C07"],
     "library/python/unpack.py": ["C04"],
     "library/ops.py": ["C04", "C07"],
-    "nn/qmodule.py": ["C08", "C10", "C09", "C11"],
+    "nn/qmodule.py": ["C08", "C10", "C09", "C11", "C14"],
     "nn/qlinear.py": ["C08", "C11"],
     "nn/qconv2d.py": ["C08"],
     "nn/qlayernorm.py": ["C08", "C12"],
